@@ -60,6 +60,7 @@ type World struct {
 	decCache   map[*ssa.Function]*decTab
 	wCache     map[*ssa.Function]*writerInfo
 	dispCache  map[string]*dispatch
+	kindCache map[kindRunKey]*kindRunResult
 	etsCache   map[string]ISet
 }
 
